@@ -412,6 +412,13 @@ class TranslateTag(Tag):
                         token=node.token,
                     )
 
+                if "(" in var or ")" in var:
+                    # Can't be written as a `%(name)s` format key.
+                    raise TranslationSyntaxError(
+                        f"unexpected parentheses in translation variable '{expr}'",
+                        token=node.token,
+                    )
+
                 message_text.append(f"%({var})s")
                 message_vars.append(var)
             else:
